@@ -48,7 +48,7 @@ def run_child(job, scratch, timeout):
     job = dict(job, scratch=scratch)
     jp = os.path.join(scratch, "job.json")
     json.dump(job, open(jp, "w"))
-    p = subprocess.run([PY, os.path.join(VERIF, "harness", "c17_child.py"), jp], env=env_child(),
+    p = subprocess.run([PY, os.path.join(VERIF, "harness", "c17_child.py"), jp], env=env_child(), cwd=scratch,
                        stdout=subprocess.PIPE, stderr=subprocess.STDOUT, text=True, timeout=timeout)
     rp = os.path.join(scratch, "result.json")
     if p.returncode != 0 or not os.path.exists(rp):
